@@ -3,6 +3,8 @@
 
 import itertools
 
+import numpy as np
+
 from harness import common, vecgen
 
 LEVEL = {
@@ -68,7 +70,9 @@ def impl(case):
     before = vecgen.canon_array(v)
     try:
         if op == "sort":
-            out = v.sort(dir=arg)
+            # the direction as the caller may hold it: a Python int, or a NumPy integer (`for d in np.array([1, -1])`, `np.sign(x)`)
+            d = [arg, np.int64(arg), np.int8(arg)][(len(vals) + (arg > 0)) % 3]
+            out = v.sort(dir=d)
         elif op == "rank":
             out = v.rank(method=arg)
         else:
